@@ -28,10 +28,15 @@
 (* LexProgress (part of C08) holds for TRUE and is violated for FALSE as   *)
 (* soon as a definition has a non-skip terminal matching the empty string. *)
 (***************************************************************************)
-EXTENDS Regex
+EXTENDS Regex, Json, IOUtils
 
-CONSTANTS Defs,            \* sequence of lexer definitions (see Regex.tla)
-          ZeroLenIsError
+CONSTANT ZeroLenIsError
+
+(* the lexer definitions of a run (see Regex.tla), read from the JSON file  *)
+(* named by the environment variable LEX_CASES.  (A plain definition, not a *)
+(* CONSTANT substituted in the .cfg: TLC evaluates it once; a substituted   *)
+(* constant would re-read the file at every use.)                            *)
+Defs == JsonDeserialize(IOEnv.LEX_CASES)
 
 VARIABLES c,       \* index of the definition
           w,       \* the input, a sequence of character classes
